@@ -36,3 +36,28 @@ Fixpoint failing_from (i : nat) (cs : list case) : list nat :=
   | c :: r => (if case_ok c then [] else [i]) ++ failing_from (S i) r
   end.
 Definition failing (cs : list case) : list nat := failing_from 0 cs.
+
+(* ---- the same for broadcast configurations (Net/Bcast.v) *)
+From NQ Require Import Net.Bcast.
+
+Definition enc_bres (r : bres) : list nat :=
+  match r with BOk => [0] | BConnErr => [1] | BMsg f m => [2; f; m] end.
+
+Definition bflat_obs (s : bstate) : list nat :=
+  flat_map (fun x => match pobserve (b_hub s) x with
+                     | (bo, lft, o) => [100] ++ flat_map enc_bres bo ++ [101; lft; 102] ++ flat_map enc_res o
+                     end) (b_par s)
+  ++ [104]
+  ++ flat_map (fun kv => enc_key (fst kv) ++ [105] ++ snd kv ++ [106])
+              (filter (fun kv => negb (Nat.eqb (List.length (snd kv)) 0)) (s_q (b_hub s)))
+  ++ [107] ++ flat_map enc_key (s_open (b_hub s)) ++ [108] ++ flat_map enc_key (s_rem (b_hub s)).
+
+Definition bcase := (list pcfg * list nat * list nat)%type.
+Definition bcase_ok (c : bcase) : bool :=
+  match c with (cfg, sch, expect) => list_eqb (bflat_obs (brun (binit cfg) sch)) expect end.
+Fixpoint bfailing_from (i : nat) (cs : list bcase) : list nat :=
+  match cs with
+  | [] => []
+  | c :: r => (if bcase_ok c then [] else [i]) ++ bfailing_from (S i) r
+  end.
+Definition bfailing (cs : list bcase) : list nat := bfailing_from 0 cs.
